@@ -664,6 +664,12 @@ theorem perChunk_texts_flatten (chunks : List Bytes) :
   | cons c cs ih =>
     simp only [List.map_cons, List.flatten_cons, ih, decodePerChunk, List.flatMap_cons, toChars_append]
 
+theorem runWith_map_feed (P : Parser E) (chunks : List Bytes) : ∀ s : BSt,
+    runWith (stepOp P) s (chunks.map Op.feed) = runWith (feedBytesCode P) s chunks := by
+  induction chunks with
+  | nil => intro s; rfl
+  | cons c cs ih => intro s; simp only [List.map_cons, runWith, stepOp, ih]
+
 /-! ## Part 4: a decidable checker for `PrefixOracle` (used for the non-vacuity examples and by the driver on
 every corpus stream) and a toy parser -/
 
